@@ -373,7 +373,14 @@ func (g *G) tableSample() {
 	case 3:
 		g.kw("CAST")
 		g.p("(")
-		g.num("1")
+		switch g.alt(3) {
+		case 0:
+			g.num("1")
+		case 1:
+			g.num("1.5")
+		case 2:
+			g.param()
+		}
 		g.kw("AS")
 		g.pk([]string{"INT64", "FLOAT64"}[g.alt(2)])
 		g.p(")")
